@@ -67,6 +67,8 @@ Clauses(st) ==
      <<"ready", {<<e[1], e[2], e[3], s.ready[e]>> : e \in DOMAIN s.ready} = ToSet(st.ready)>>,
      <<"threads", s.threads = ToSet(st.threads)>>,
      <<"waiter", s.waiter = st.waiter>>,
+     <<"stopreq", s.stopreq = st.stopreq>>,
+     <<"exitmode", s.exitmode = st.exitmode>>,
      <<"world", \A n \in Names : ProjWorld(n) = st.world[n]>> >>
 
 FailedClauses(st) == {c[1] : c \in {x \in ToSet(Clauses(st)) : ~x[2]}}
@@ -79,7 +81,8 @@ ActionList ==
      <<"NoBodyAfterDone", NoBodyAfterDoneA>>,
      <<"NoLaunchWhenDoneAtSubmit", NoLaunchWhenDoneAtSubmitA>>,
      <<"FinalAbsorbing", FinalAbsorbingA>>,
-     <<"TruthfulFinal", TruthfulFinalA>> >>
+     <<"TruthfulFinal", TruthfulFinalA>>,
+     <<"EarlyReturnOnlyAfterStop", EarlyReturnOnlyAfterStopA>> >>
 
 ActionChecks ==
   LET bad == {c[1] : c \in {x \in ToSet(ActionList) : ~x[2]}}
@@ -100,6 +103,9 @@ TraceStep ==
   \/ IsEvent("WaitCall") /\ WaitCall
   \/ IsEvent("WaiterStep") /\ WaiterStep
   \/ IsEvent("WaitReturn") /\ WaitReturn /\ s.waiter = Ev.args.r
+  \/ IsEvent("Sigint") /\ Sigint
+  \/ IsEvent("StopStep") /\ StopStep
+  \/ IsEvent("WaitReturnStopped") /\ WaitReturnStopped /\ s.waiter = Ev.args.r
   \/ IsEvent("JobWaitCall") /\ JobWaitCall(NameOf(Ev.args.j)) /\ s'.mwait = <<"job", Ev.args.j>>
   \/ IsEvent("JobWaitReturn") /\ JobWaitReturn(Ev.args.j) /\ s.result[Ev.args.j] = Ev.args.r
   \/ IsEvent("Die") /\ Running /\ (IF Ev.args.at = "spawned" THEN DieAfterSpawn(Ev.args.j) ELSE Die)
@@ -126,6 +132,7 @@ InvList ==
      <<"ResultIsFinal", ResultIsFinal>>,
      <<"WaitOnlyWhenAllFinal", WaitOnlyWhenAllFinal>>,
      <<"CounterNonNegative", CounterNonNegative>>,
+     <<"StopOnlyOnRequest", StopOnlyOnRequest>>,
      <<"ExitReportsFailureIffFailed", ExitReportsFailureIffFailed>>,
      <<"FailedDependentsCancelled", FailedDependentsCancelled>>,
      <<"IndependentJobsRun", IndependentJobsRun>>,
